@@ -29,9 +29,24 @@
 (*       rendered) / reached by the change      g  registration number      *)
 (*       (payload marker of the rendered request object; accept; cancelcb)  *)
 (*   n   count   x  change variant / payload kind "S" rendered, "E" explicit*)
+(*   q   number of the observable resource (request path; change; accept;    *)
+(*       obscount; payload marker of a response) -- 0: none / another one    *)
+(*   b2  Block2 option of the datagram as its integer value                  *)
+(*       (16 * block number + 8 * more + size exponent), -1: absent          *)
+(*       (recorded; no clause depends on it: a request is "a new request on *)
+(*       the same token" because of its remote and token, whatever blocks it *)
+(*       asks for, and a block fetched on another token is no such request)  *)
+(*                                                                          *)
+(* The first response of a registration is its first notification (RFC 7641 *)
+(* section 3.2 "each such notification response (including the initial       *)
+(* response)"): when it is sent as a separate confirmable response, Reset    *)
+(* and time-out end the registration exactly like a later notification's.   *)
+(* State numbers, change counts and observer counts are per resource.        *)
 EXTENDS Naturals, Integers, Sequences, FiniteSets
 
-CONSTANTS MaxRetransmit        \* MAX_RETRANSMIT of the run (>= 1)
+CONSTANTS MaxRetransmit,       \* MAX_RETRANSMIT of the run (>= 1)
+          NonLifetime          \* a Reset answering a NON notification is judged when it arrives at most this
+                               \* long after the notification was sent (the driver's domain: always)
 
 Has(f, k) == k \in DOMAIN f
 Put(f, k, v) == [x \in (DOMAIN f) \cup {k} |-> IF x = k THEN v ELSE f[x]]
@@ -41,16 +56,19 @@ ObsInit == [ regs |-> << >>,  \* g -> summary of registration number g
              rq   |-> << >>,  \* <<r, tok>> -> type of the latest new request with that key
              req  |-> {},     \* <<r, mid>> of the request datagrams seen (a second copy is a duplicate)
              ex   |-> << >>,  \* <<r, mid>> -> separate notification sent under that message ID
-             nchg |-> 0,      \* state changes so far
-             cnt  |-> 0,      \* the resource's latest update_observation_count value
-             rstnon |-> 0,    \* Resets answering non-confirmable notifications (recorded, not judged)
+             nchg |-> << >>,  \* q -> state changes of resource q so far
+             cnt  |-> << >>,  \* q -> resource q's latest update_observation_count value
+             rstnon |-> 0,    \* Resets answering non-confirmable notifications seen (vacuity evidence)
              bad  |-> {} ]
 
 Flag(o, c) == [o EXCEPT !.bad = @ \cup {c}]
 FlagIf(o, cond, c) == IF cond THEN Flag(o, c) ELSE o
 
+Get(f, k) == IF Has(f, k) THEN f[k] ELSE 0
+
 NewReg(e, ty, nchg) ==
   [r |-> e.r, tok |-> e.tok, ty |-> ty,
+   q |-> e.q,              \* the resource it observes
    phase |-> "active",     \* "active" | "closing" (marked last by the application, final not yet sent) | "ended"
    cause |-> "",           \* why it is over: Rst Unsuccessful Last ReRegister ConTimeout TransportError Shutdown
    k |-> 0,                \* closing: state number of the change that marked it last
@@ -60,16 +78,22 @@ NewReg(e, ty, nchg) ==
    cb |-> 0,               \* runs of the cancellation callback
    coll |-> FALSE,         \* the cancellation callback ran at the very instant at which a confirmable message to
                            \* the registration's endpoint gave up (which fails everything towards that endpoint)
+   rn |-> FALSE,           \* the observer answered one of its NON notifications with Reset (cause "RstNon").  That
+                           \* cause is judged on its own, under names that say so: the summary goes on as the
+                           \* implementation does (an implementation that ignores the Reset keeps the registration,
+                           \* one that honours it runs the callback), so that every OTHER cause that follows is
+                           \* still judged under its own name and nothing else is blamed on this one
    told |-> FALSE,         \* the application handed it an unsuccessful response at some point (that response
                            \* may be coalesced away, or be dropped with a backlog, so it does not have to
                            \* appear on the wire; but the end of the registration is explained by it)
    pre |-> e.n,            \* observer count before the registration
-   born |-> nchg]          \* state number when it was accepted
+   born |-> nchg]          \* state number of its resource when it was accepted
 
 Detail(R) == ":" \o R.ty
 
 EndsClause(cause) ==
   CASE cause = "Rst" -> "C08_EndsOnRst"
+    [] cause = "RstNon" -> "C08_EndsOnRstNon"       \* Reset answering a non-confirmable notification
     [] cause = "Unsuccessful" -> "C08_EndsOnUnsuccessful"
     [] cause = "Last" -> "C08_EndsOnLast"
     [] cause = "ReRegister" -> "C08_EndsOnReRegister"
@@ -115,15 +139,22 @@ ObsRx(o, e) ==
   ELSE IF e.ty \in {"ACK", "RST"} /\ Has(o.ex, <<e.r, e.mid>>) THEN
       LET k == <<e.r, e.mid>>
           x == o.ex[k]
-      IN IF ~x.con THEN (IF e.ty = "RST" THEN [o EXCEPT !.rstnon = 1] ELSE o)
+      IN IF ~x.con
+           THEN \* a non-confirmable notification (no exchange): an ACK means nothing; a Reset is the observer's
+                \* answer to that notification ("when the observer answers a notification with Reset")
+                IF e.ty = "RST" /\ e.t - x.tlast <= NonLifetime
+                  THEN [o EXCEPT !.rstnon = 1,
+                                 !.regs = [g \in DOMAIN o.regs |->
+                                     IF g = x.g /\ o.regs[g].phase # "ended" THEN [o.regs[g] EXCEPT !.rn = TRUE] ELSE o.regs[g]]]
+                  ELSE o
          ELSE IF ~x.open THEN o
          ELSE IF e.ty = "RST" THEN EndAll(CloseEx(o, {k}), {x.g}, "Rst")
          ELSE CloseEx(o, {k})
   ELSE o
 
 (* ---- tx ------------------------------------------------------------------ *)
-HeldAt(o, r, tok, k) ==
-  LET C == {h \in DOMAIN o.regs : o.regs[h].r = r /\ o.regs[h].tok = tok /\ o.regs[h].born < k} IN
+HeldAt(o, r, tok, k, q) ==
+  LET C == {h \in DOMAIN o.regs : o.regs[h].r = r /\ o.regs[h].tok = tok /\ o.regs[h].q = q /\ o.regs[h].born < k} IN
   IF C = {} THEN 0 ELSE CHOOSE h \in C : \A j \in C : j <= h
 
 ObsTx(o, e) ==
@@ -132,7 +163,7 @@ ObsTx(o, e) ==
       \* explicit response without marker (one object handed to all observers by the change that led to
       \* state e.st) belongs to the registration that held (remote, token) when that change happened,
       \* i.e. the latest one accepted before it (it may be sent, or retransmitted, after a re-registration)
-      g == IF e.g # 0 THEN e.g ELSE IF e.x = "E" THEN HeldAt(o, e.r, e.tok, e.st) ELSE 0
+      g == IF e.g # 0 THEN e.g ELSE IF e.x = "E" THEN HeldAt(o, e.r, e.tok, e.st, e.q) ELSE 0
   IN IF g = 0 \/ ~Has(o.regs, g) THEN
        \* not a notification of a registration; a confirmable one is still an exchange with that endpoint
        \* whose time-out fails everything towards it
@@ -157,6 +188,9 @@ ObsTx(o, e) ==
        LET final == e.code >= 128 \/ e.obs = -1 \/ (R.phase = "closing" /\ e.st >= R.k)
            o1 == IF R.phase = "ended"
                    THEN Flag(Flag(o0, "C08_SilentAfterEnd:" \o R.cause \o Detail(R)), EndsClause(R.cause) \o Detail(R))
+                   ELSE IF R.rn
+                   THEN \* a further notification although the observer answered an earlier (NON) one with Reset
+                        Flag(Flag(o0, "C08_SilentAfterEnd:RstNon" \o Detail(R)), EndsClause("RstNon") \o Detail(R))
                    ELSE o0
            o2 == FlagIf(o1, R.phase # "ended" /\ e.obs # -1 /\ e.obs <= R.lastobs, "C08_TokenAndRisingNumbers" \o Detail(R))
            R2 == [R EXCEPT !.seen = @ \cup {md},
@@ -176,27 +210,28 @@ ObsTx(o, e) ==
 ObsChange(o, e) ==
   IF e.x = "last"
     THEN \* every registration the resource still holds is marked last from this state on
-         [o EXCEPT !.nchg = e.st,
+         [o EXCEPT !.nchg = Put(@, e.q, e.st),
                    !.regs = [g \in DOMAIN o.regs |->
-                       IF o.regs[g].phase = "active" /\ o.regs[g].cb = 0
+                       IF o.regs[g].q = e.q /\ o.regs[g].phase = "active" /\ o.regs[g].cb = 0
                          THEN [o.regs[g] EXCEPT !.phase = "closing", !.cause = "Last", !.k = e.st]
                          ELSE o.regs[g]]]
     ELSE IF e.x \in {"unsucc", "shared-unsucc"}
-    THEN [o EXCEPT !.nchg = e.st,
+    THEN [o EXCEPT !.nchg = Put(@, e.q, e.st),
                    !.regs = [g \in DOMAIN o.regs |->
-                       IF o.regs[g].phase = "active" /\ o.regs[g].cb = 0 THEN [o.regs[g] EXCEPT !.told = TRUE] ELSE o.regs[g]]]
-    ELSE [o EXCEPT !.nchg = e.st]
+                       IF o.regs[g].q = e.q /\ o.regs[g].phase = "active" /\ o.regs[g].cb = 0
+                         THEN [o.regs[g] EXCEPT !.told = TRUE] ELSE o.regs[g]]]
+    ELSE [o EXCEPT !.nchg = Put(@, e.q, e.st)]
 
 ObsAccept(o, e) ==
   LET key == <<e.r, e.tok>> IN
-  [o EXCEPT !.regs = Put(@, e.g, NewReg(e, IF Has(o.rq, key) THEN o.rq[key] ELSE "?", o.nchg)),
+  [o EXCEPT !.regs = Put(@, e.g, NewReg(e, IF Has(o.rq, key) THEN o.rq[key] ELSE "?", Get(o.nchg, e.q))),
             !.cur = Put(@, key, e.g)]
 
 ObsCancelCb(o, e) ==
   IF ~Has(o.regs, e.g) THEN Flag(o, "MON_CancelWithoutAccept")
   ELSE FlagIf([o EXCEPT !.regs[e.g].cb = @ + 1, !.regs[e.g].coll = @ \/ GivesUpAt(o, o.regs[e.g].r, e.t)], o.regs[e.g].cb >= 1, "C08_CancelCallbackOnce" \o Detail(o.regs[e.g]))
 
-ObsObsCount(o, e) == [o EXCEPT !.cnt = e.n]
+ObsObsCount(o, e) == [o EXCEPT !.cnt = Put(@, e.q, e.n)]
 
 ObsErr(o, e) ==
   EndAll(CloseEx(o, {k \in DOMAIN o.ex : k[1] = e.r}), {g \in DOMAIN o.regs : o.regs[g].r = e.r}, "TransportError")
@@ -210,19 +245,24 @@ EndBadOf(o, g) ==
   \* backlog of a remote that timed out) and the cancellation callback has not run exactly once
   (IF R.phase \in {"ended", "closing"} /\ R.cb # 1
      THEN {"C08_CancelCallbackOnce:" \o R.cause \o Detail(R), EndsClause(R.cause) \o Detail(R)} ELSE {})
-  \cup (IF R.phase = "active" /\ R.cb = 0 /\ R.lastst # o.nchg THEN {"C08_LatestEventuallySent" \o Detail(R)} ELSE {})
+  \* a Reset answered one of its NON notifications and the cancellation callback has not run
+  \cup (IF R.phase = "active" /\ R.rn /\ R.cb = 0
+          THEN {"C08_CancelCallbackOnce:RstNon" \o Detail(R), EndsClause("RstNon") \o Detail(R)} ELSE {})
+  \cup (IF R.phase = "active" /\ R.cb = 0 /\ ~R.rn /\ R.lastst # Get(o.nchg, R.q) THEN {"C08_LatestEventuallySent" \o Detail(R)} ELSE {})
   \* the implementation ended it (the callback ran) although none of the statement's causes occurred: the
   \* observer still counts on it.  Explained only by what fails everything towards the endpoint -- a
   \* confirmable message to it gave up at that very instant (transport error and shutdown are causes of
   \* their own) -- or by an unsuccessful response the application handed to it.
-  \cup (IF R.phase = "active" /\ R.cb >= 1 /\ ~R.told /\ ~R.coll
+  \cup (IF R.phase = "active" /\ R.cb >= 1 /\ ~R.told /\ ~R.coll /\ ~R.rn
           THEN {"C08_EndsOnlyForCause" \o Detail(R)} ELSE {})
 
-Live(o) == {g \in DOMAIN o.regs : o.regs[g].phase # "ended" /\ o.regs[g].cb = 0}
+Live(o, q) == {g \in DOMAIN o.regs : o.regs[g].q = q /\ o.regs[g].phase # "ended" /\ o.regs[g].cb = 0}
 
+\* per resource: the count it reported last is the number of its registrations that are not over
 ObsEnd(o, e) ==
+  LET Q == (DOMAIN o.cnt) \cup {o.regs[g].q : g \in DOMAIN o.regs} IN
   [o EXCEPT !.bad = @ \cup UNION {EndBadOf(o, g) : g \in DOMAIN o.regs}
-                      \cup (IF o.cnt # Cardinality(Live(o)) THEN {"C08_CountRestored"} ELSE {})]
+                      \cup (IF \E q \in Q : Get(o.cnt, q) # Cardinality(Live(o, q)) THEN {"C08_CountRestored"} ELSE {})]
 
 ObsEvent(o0, e) ==
   LET o == Expire(o0, e.t, e.k = "end") IN
